@@ -96,6 +96,50 @@ def decode(data, strict_flags=True):
     return evs
 
 
+def decode_file_light(path, strict_flags=True):
+    """Like decode_file for very large streams: the file is mapped, jumbo data is
+    not copied (payload b"", raw b"")."""
+    import mmap
+    with open(path, "rb") as f:
+        n = os.fstat(f.fileno()).st_size
+        if n < 8:
+            raise DecodeError("short header", 0, [])
+        data = mmap.mmap(f.fileno(), 0, access=mmap.ACCESS_READ)
+    try:
+        if data[:4] != MAGIC:
+            raise DecodeError("bad magic", 0, [])
+        off = 8
+        evs = []
+        while off < n:
+            if off + 12 > n:
+                raise DecodeError("truncated event header", off, evs)
+            flags = data[off]
+            mcv = data[off + 1:off + 4]
+            clock = struct.unpack_from("<Q", data, off + 4)[0]
+            low = flags & 0x0f
+            psize = 0 if low == 0 else low + 1
+            if strict_flags and (flags & 0xe0):
+                raise DecodeError("reserved flag bits set (0x%02x)" % flags, off, evs)
+            if flags & 0x10:
+                if psize != 4:
+                    raise DecodeError("jumbo event with payload size %d" % psize, off, evs)
+                if off + 16 > n:
+                    raise DecodeError("truncated jumbo size", off, evs)
+                end = off + 16 + struct.unpack_from("<I", data, off + 12)[0]
+                if end > n:
+                    raise DecodeError("truncated jumbo data", off, evs)
+                evs.append(Ev(clock, mcv.decode("latin-1"), b"", True, off, b""))
+            else:
+                end = off + 12 + psize
+                if end > n:
+                    raise DecodeError("truncated payload", off, evs)
+                evs.append(Ev(clock, mcv.decode("latin-1"), bytes(data[off + 12:end]), False, off, b""))
+            off = end
+        return evs
+    finally:
+        data.close()
+
+
 def decode_file(path, strict_flags=True):
     with open(path, "rb") as f:
         return decode(f.read(), strict_flags)
